@@ -1053,6 +1053,10 @@ static scpi_bool_t ParamSignUInt32(scpi_t * context, uint32_t * value, scpi_bool
     if (result) {
         if (SCPI_ParamIsNumber(&param, FALSE)) {
             result = ParamSignToUInt32(context, &param, value, sign);
+            if (!result) {
+                /* nothing could be converted (e.g. ".5") - not an integer */
+                SCPI_ErrorPush(context, SCPI_ERROR_DATA_TYPE_ERROR);
+            }
         } else if (SCPI_ParamIsNumber(&param, TRUE)) {
             SCPI_ErrorPush(context, SCPI_ERROR_SUFFIX_NOT_ALLOWED);
             result = FALSE;
@@ -1085,6 +1089,10 @@ static scpi_bool_t ParamSignUInt64(scpi_t * context, uint64_t * value, scpi_bool
     if (result) {
         if (SCPI_ParamIsNumber(&param, FALSE)) {
             result = ParamSignToUInt64(context, &param, value, sign);
+            if (!result) {
+                /* nothing could be converted (e.g. ".5") - not an integer */
+                SCPI_ErrorPush(context, SCPI_ERROR_DATA_TYPE_ERROR);
+            }
         } else if (SCPI_ParamIsNumber(&param, TRUE)) {
             SCPI_ErrorPush(context, SCPI_ERROR_SUFFIX_NOT_ALLOWED);
             result = FALSE;
